@@ -146,6 +146,19 @@ class Checker:
         asv = eg.as_service()
         if (asv.service_id, asv.instance_id, asv.major_version, asv.minor_version) != (l[0], l[1], l[2], W_N):
             self.bad("as_service-changes-ids", eventgroup=l, got=repr(asv))
+        if spec is not None:
+            # the specialised eventgroup is a value of its own: used again, it describes and accepts the adopted instance and
+            # major version - not what the filter it came from said
+            ctx.count("law_for_service_result_used_again")
+            sv2 = spec.as_service()
+            if (sv2.service_id, sv2.instance_id, sv2.major_version, sv2.minor_version) != (l[0], r[1], r[2], W_N):
+                self.bad("specialised-eventgroup-describes-the-filter-instead-of-the-adopted-ids", eventgroup=l, service=r, got=repr(sv2))
+            for r2 in ((r[0], (r[1] + 1) & 0xFFFE, r[2], r[3]), (r[0], r[1], (r[2] + 1) & 0xFE, r[3]), r):
+                again = spec.for_service(self.svc(r2))
+                want = ref("offer", (l[0], r[1], r[2], W_N), r2)
+                if (again is not None) is not want:
+                    self.bad("specialised-eventgroup-accepts-or-refuses-wrongly", eventgroup=l, first_service=r, second_service=r2,
+                             got=repr(again), expected=want)
 
     def roundtrip(self, t, ttl, with_opts):
         C, H, ctx = self.C, self.H, self.ctx
